@@ -90,3 +90,53 @@ Theorem C03_create_total : forall (A : Type) (parse : str -> option (list A)) h,
   (exists v, h = Some v /\ parse v = None /\ create parse h = Invalid v).
 Proof. exact @create_cases. Qed.
 Print Assumptions C03_create_total.
+
+(* ---- Accept: media range text, media type parameters (values unquoted), weight and extension parameters *)
+Require Import Webob.Proofs.C03_accept_scan.
+From Coq Require Import String.
+
+Theorem C03_accept_elements : forall j0 els,
+  all_junk j0 -> rels_ok els -> rmatch gen_accept (arender j0 els) = true ->
+  parse_accept (arender j0 els) = Some (map (fun ej => canon_rel (fst ej)) els).
+Proof. exact parse_accept_render. Qed.
+Print Assumptions C03_accept_elements.
+
+(* the header:  text/html ;level=QUOTED(a, backslash-quote, b) ; Q=0.5;x;y=QUOTED(1 2), then star/star *)
+Example C03_accept_elements_nonvacuous :
+  let p := mkP [32] [] [108;101;118;101;108] [34;97;92;34;98;34] in
+  let w := mkWt [32] [32] 81 [48;46;53] in
+  let x1 := mkX [] [] [120] None in
+  let x2 := mkX [] [] [121] (Some [34;49;32;50;34]) in
+  let e1 := mkR [116;101;120;116] [104;116;109;108] [p] (Some (w, [x1; x2])) in
+  let e2 := mkR [42] [42] [] None in
+  let els := [(e1, [44;32]); (e2, [])] in
+  all_junk [] /\ rels_ok els /\ rmatch gen_accept (arender [] els) = true /\
+  parse_accept (arender [] els) =
+    Some [ mkEl (H "746578742f68746d6c3b6c6576656c3d22615c226222"%string) 500
+                [([108;101;118;101;108], [97;34;98])]
+                [([120], None); ([121], Some [49;32;50])];
+           mkEl [42;47;42] 1000 [] [] ].
+Proof.
+  cbv zeta. split; [constructor|]. split.
+  - split.
+    + split; [split; [discriminate|repeat constructor]|]. split; [split; [discriminate|repeat constructor]|].
+      split.
+      * constructor; [|constructor]. unfold param_ok; cbn.
+        split; [repeat constructor|]. split; [constructor|]. split; [split; [discriminate|repeat constructor]|].
+        split; [exact I|]. right. eexists. split; [reflexivity|].
+        apply qb_text; [reflexivity|]. apply qb_pair; [reflexivity|]. apply qb_text; [reflexivity|]. apply qb_end.
+      * cbn. split.
+        -- unfold wt_ok; cbn. split; [repeat constructor|]. split; [repeat constructor|]. split; [reflexivity|].
+           right. right. left. exists [53]. repeat split; cbn; try lia; repeat constructor.
+        -- constructor; [|constructor; [|constructor]]; unfold ext_ok; cbn.
+           ++ split; [constructor|]. split; [constructor|]. split; [split; [discriminate|repeat constructor]|exact I].
+           ++ split; [constructor|]. split; [constructor|]. split; [split; [discriminate|repeat constructor]|].
+              right. eexists. split; [reflexivity|].
+              apply qb_text; [reflexivity|]. apply qb_text; [reflexivity|]. apply qb_text; [reflexivity|]. apply qb_end.
+    + split; [repeat constructor|]. split; [discriminate|].
+      split.
+      * split; [split; [discriminate|repeat constructor]|].
+        split; [split; [discriminate|repeat constructor]|]. split; [constructor|exact I].
+      * split; [constructor|]. split; [intros H0; exfalso; apply H0; reflexivity|exact I].
+  - split; vm_compute; reflexivity.
+Qed.
